@@ -25,11 +25,13 @@ def rule_of(pid):
 
 CHECKS = {
     "C01": hist("TestC01", 6000, 40, 20000, 60,
+                extra_quick=[{"test": "TestC01", "variant": "386", "checks": 1500, "steps": 40, "timeout": 600}],
                 extra_thorough=[{"test": "TestC01", "variant": "386", "checks": 10000, "steps": 60, "shards": 2, "timeout": 3000}],
                 kf_test="TestKF_C01",
                 essential=["absent_proper_prefix_of_stored", "absent_shares_prefix_gt10", "reinsert_after_delete",
                            "has_node16", "has_node48", "has_node256", "lost_node48", "lost_node256", "inspath_pathsplit_long"]),
     "C02": hist("TestC02", 5000, 40, 15000, 60,
+                extra_quick=[{"test": "TestC02", "variant": "386", "checks": 1500, "steps": 40, "timeout": 600}],
                 extra_thorough=[{"test": "TestC02", "variant": "386", "checks": 8000, "steps": 60, "shards": 2, "timeout": 3000}],
                 essential=["scan_ge3_after_delete", "has_node16", "has_node48", "has_node256", "lost_node48", "lost_node256"]),
     "C03": hist("TestC03", 6000, 40, 20000, 60,
